@@ -222,6 +222,7 @@ inductive SeqSpec
   | remove (a : ArgSpec) | contains (a : ArgSpec) | index (a : ArgSpec) | count (a : ArgSpec)
   | direct (o : SeqOp)
   | observe            -- the harness only READS navigation properties here: no call on the model
+  | raises             -- `seq *= <not an integer>`: operator.index raises TypeError before anything happens
 
 inductive MapSpec
   | setitem (k : Tree.Str) (a : ArgSpec)
@@ -244,6 +245,8 @@ def parseSeqOp (j : Json) : Except String SeqSpec := do
   | "pop" => return .direct (.pop (← optOf int (fldD j "i" .null)))
   | "remove" => return .remove (← a)
   | "reverse" => return .direct .reverse
+  | "reversed" => return .direct (.getslice ⟨none, none, some (-1)⟩)   -- list(reversed(l)) is l[::-1]
+  | "imul_bad" => return .raises
   | "observe" => return .observe
   | "clear" => return .direct .clear
   | "imul" => return .direct (.imul (← ifld j "n"))
@@ -253,6 +256,8 @@ def parseSeqOp (j : Json) : Except String SeqSpec := do
       | none => pure none
       | some "u" => pure (some SortKey.u)
       | some "ulen" => pure (some SortKey.ulen)
+      | some "len" => pure (some SortKey.len)
+      | some "field" => pure (some SortKey.field)
       | some s => throw s!"bad sort key {s}"
     return .direct (.sort k (← bfld j "rev"))
   | "set" => return .direct (.set (← parseRaw (← fld j "v")))
@@ -330,6 +335,7 @@ def materialise (s : St) (o : OpSpec) : Except String (Node × Op × St) := do
     let some sp := o.s | throw "nokindop"
     match sp with
     | .observe => throw "OBSERVE"
+    | .raises => throw "TYPEERROR"
     | .direct op => return (target, .seq op, s)
     | .append a => let (x, s1) ← mkArg s target none a; return (target, .seq (.append x), s1)
     | .extend as => let (xs, s1) ← mkArgs s target none as; return (target, .seq (.extend xs), s1)
@@ -378,6 +384,7 @@ def execOp (s : St) (o : OpSpec) : StepObs :=
   match materialise s o with
   | .error "UNSUPPORTED" => ⟨{ s with unsupported := true }, Json.str "unsupported", none, []⟩
   | .error "OBSERVE" => ⟨s, Json.str "ok", none, []⟩
+  | .error "TYPEERROR" => ⟨s, obj [("exc", Json.str "TypeError")], none, []⟩
   | .error reason => ⟨s, obj [("skip", Json.str reason)], none, []⟩
   | .ok (target, op, s1) =>
     match stepAt s1.root target.id op s1.next with
